@@ -87,12 +87,17 @@ def bind(env):
         return env.err.XLError(CODES8[int(i)])
     vars = dict(('ev%s' % 'abcdefgh'[i], errs[i]) for i in range(8))
     vars['vok'] = 5
+    vars['vblank'] = None
+    vars['vtext'] = 'some text'
     cells = dict(('$E$%d' % (i + 1), errs[i]) for i in range(8))
     cells.update(dict(('E%d' % (i + 1), errs[i]) for i in range(8)))
     for i in range(8):
         vars['fv%s' % 'abcdefgh'[i]] = env.err.XLError(CODES8[i])
         cells['$F$%d' % (i + 1)] = env.err.XLError(CODES8[i])
     return vars, {'FRAISE': fraise, 'FRET': fret, 'FRAISEF': fraisef, 'FRETF': fretf}, cells
+
+
+OTHERS = ['"abc"', '""', '"5"', 'TRUE', 'vblank', '0.5', '{1,2}', '"2020-01-31"', 'SUM(1,2)', '("a"&"b")', 'vtext']
 
 
 def benign(op):
@@ -105,6 +110,12 @@ def contexts(tier):
     for op in OPS:
         C.append(('L%s' % op, '{x}%s%s' % (op, benign(op))))
         C.append(('R%s' % op, '%s%s{x}' % (benign(op), op)))
+    # the OTHER operand must not matter: text that is no number, empty text, numeric text, a logical, a blank, a float,
+    # an array, date text, a function call - whether it would be acceptable to the operator on its own or not
+    for k, other in enumerate(OTHERS):
+        for op in OPS:
+            C.append(('L%s~%d' % (op, k), '{x}%s%s' % (op, other)))
+            C.append(('R%s~%d' % (op, k), '%s%s{x}' % (other, op)))
     C.append(('neg', '-{x}'))
     C.append(('negneg', '--{x}'))
     C += [('n2a', '({x}+1)*2'), ('n2b', '2*(1+{x})'), ('n2c', '-({x}+1)'), ('n2d', '({x}=1)+1'),
